@@ -82,6 +82,39 @@ pub fn load_case(ctx: &Ctx, t: &[&str]) -> String {
     }
 }
 
+/// LOADBIG <declared total size> <reserved word> <hex: the last 8 bytes of the declared region>
+/// The declared region is really mapped (lazily), so sizes up to 4 GiB are inside the property's hypothesis.
+pub fn loadbig_case(t: &[&str]) -> String {
+    let declared: usize = t[1].parse().unwrap();
+    let reserved: u32 = t[2].parse().unwrap();
+    let tail = unhex(t[3]);
+    let reg = match BigRegion::new(declared) {
+        Some(r) => r,
+        None => return "skip:mmap".into(),
+    };
+    let p = reg.start;
+    unsafe {
+        std::ptr::copy_nonoverlapping((declared as u32).to_le_bytes().as_ptr(), p, 4);
+        std::ptr::copy_nonoverlapping(reserved.to_le_bytes().as_ptr(), p.add(4), 4);
+        if declared >= 16 && tail.len() == 8 {
+            std::ptr::copy_nonoverlapping(tail.as_ptr(), p.add(declared - 8), 8);
+        }
+    }
+    let r = guarded(|| unsafe { BootInformation::load(p.cast()) }.map(|bi| {
+        format!(
+            "ok start={} end={} total={}",
+            bi.start_address() as i64 - p as i64,
+            bi.end_address() as i64 - p as i64,
+            bi.total_size()
+        )
+    }));
+    match r {
+        Err(()) => "panic".into(),
+        Ok(Err(e)) => load_err(e),
+        Ok(Ok(s)) => s,
+    }
+}
+
 fn walk_one<H: Header>(
     ctx: &Ctx,
     buf: &[u8],
